@@ -45,6 +45,7 @@ func stSetup() {
 	must(os.MkdirAll(filepath.Join(stRoot, "d"), 0o755))
 	must(os.MkdirAll(filepath.Join(stRoot, "e"), 0o755))
 	must(os.MkdirAll(filepath.Join(stRoot, "pfx"), 0o755))
+	must(os.MkdirAll(filepath.Join(stRoot, "x", "index.html"), 0o755)) // an index entry that is a directory
 	must(os.WriteFile(filepath.Join(stRoot, "f"), []byte("F"), 0o644))
 	must(os.WriteFile(filepath.Join(stRoot, "d", "index.html"), []byte("DI"), 0o644))
 	must(os.WriteFile(filepath.Join(stRoot, "d", "g"), []byte("GGG"), 0o644))
@@ -161,7 +162,7 @@ func stReplay(raw json.RawMessage, idx int, tr *traceWriter) {
 		"loc": loc, "written": written && !(nextRan && !writtenAtNext), "next_ran": nextRan, "panicked": panicked, "status": w.Code})
 }
 
-var stHostile = []string{"f", "d", "e", "g", "index", "pfx", "pfxx", "pfxf", "pfxd", "pfxe", "pfx.", "secret", "..", ".", "", "...", "%2e%2e", "..\\secret", "\x00", "f\x00", "d\x00",
+var stHostile = []string{"f", "d", "e", "x", "x", "g", "index", "pfx", "pfxx", "pfxf", "pfxd", "pfxe", "pfx.", "secret", "..", ".", "", "...", "%2e%2e", "..\\secret", "\x00", "f\x00", "d\x00",
 	"..;", "F", "root", "~", "..%2f", "f ", " f", "\xff", "index.htm", strings.Repeat("a", 300), "..\\..\\secret", "secret\x00.txt"}
 
 func stGen(seed int64, n int, args []string, out *json.Encoder) {
